@@ -121,6 +121,20 @@ def classify(b1, b2, op):
     return None
 
 
+CELL_KEYS = ("same-name-imports", "frozenset")
+
+
+def _gate(oracle, cell_key):
+    """cell-level gate: True = this cell is not this run's business. Findings keyed by the failing cell exclude / select
+    whole cells; findings keyed by a failure signature are handled per program inside the cell."""
+    k = "%s/%s" % (oracle, cell_key)
+    if rt.MODE == "finding":
+        if rt.FKEY.split("/", 1)[-1] in CELL_KEYS:
+            return k != rt.FKEY
+        return False
+    return rt.skip(k)
+
+
 def failure_key(verdict, detail):
     """signature of a failing program, for failures recorded as known findings by what goes wrong"""
     d = detail or ""
@@ -149,7 +163,7 @@ def make_lock(op, oracle):
             return True
         h, b1, b2 = pin(h, 0, 1), pin(b1, 0, NB - 1), pin(b2, 0, NB - 1)
         key = classify(b1, b2, op)
-        if rt.skip("%s/%s" % (oracle, key)):
+        if _gate(oracle, key):
             return True
         with native():
             return _cell(op, oracle, h, b1, b2) is None
@@ -192,7 +206,7 @@ def make_hidden(op, oracle):
             return True
         b1, b2, m2, ob = SMALL_B[pin(b1, 0, 8)], SMALL_B[pin(b2, 0, 8)], pin(m2, 0, 2), pin(ob, 0, 2)
         key = classify(b1, b2, op)
-        if rt.skip("%s/%s" % (oracle, key)):
+        if _gate(oracle, key):
             return True
         prog = BUILD[b1] + BUILD[b2] + MEMO[m2] + OPS[op] + OBS[ob]
         verdict, detail = both(h, hm, hl, prog)
